@@ -55,6 +55,17 @@ def sq_fn(tag):
     return {'quote': posix.quote_info, 'inner': posix.inner_quote_info, 'none': None}[tag]
 
 
+def the_flag(loc, params):
+    """The one boolean local of a loop that is not a parameter, whatever it is called (invariants speak about the
+    state, not about the names of temporaries)."""
+    from pyvc.interp import OutOfSubset
+    cands = [v for k, v in loc.items() if k not in params and not k.startswith('__') and
+             (isinstance(v, bool) or (isinstance(v, Sym) and v.ty == 'bool'))]
+    if len(cands) != 1:
+        raise OutOfSubset('the loop invariant needs exactly one boolean local, found %d' % len(cands))
+    return cands[0]
+
+
 def jbos_loop_invariant(backend, contract):
     """Invariant of `for i in thing.bits: escaped |= self.write(i, syntax, shell_quote)`."""
     def inv(I, loc, i, seq):
@@ -63,7 +74,7 @@ def jbos_loop_invariant(backend, contract):
         bits = loc['thing'].attrs['_jbos__bits'].e
         buf = loc['self'].attrs['stream'].buf
         from pyvc import models as M
-        esc = loc['escaped']
+        esc = the_flag(loc, ('self', 'thing', 'syntax', 'shell_quote', 'shelly'))
         return {'text_so_far': M.sym_str(buf) == z3.Concat(a.buf0, fns.CW(bits, i)),
                 'flag_so_far': T.zbool(M.lift(esc)) == fns.OE(bits, i)}
 
@@ -73,7 +84,7 @@ def jbos_loop_invariant(backend, contract):
             return
         from pyvc.interp import OutOfSubset
         raise OutOfSubset('loop mutates %s' % nm)
-    return LoopInv(inv, var_types={'escaped': 'bool', 'i': ('opaque', 'SafeStr')}, havoc_obj=havoc_obj)
+    return LoopInv(inv, havoc_obj=havoc_obj)
 
 
 # ---- `$` doubling: the escape both build-file formats use for text that must survive one expansion --------------
